@@ -190,8 +190,9 @@ func hostiles(t *harness.TxSpec, w *harness.World, deep bool) []hostile {
 				return x
 			}
 			c = set(c, p)
-			b, _ := json.Marshal(c)
-			return b
+			// keys in the original order: a kind that insists on the canonical serialisation of its payload
+			// (OLVM) would otherwise refuse every variant for its key order alone
+			return orderedMarshal(c, t.Data)
 		}
 		pname := func(p path) string {
 			s := "data"
@@ -309,8 +310,7 @@ func hostiles(t *harness.TxSpec, w *harness.World, deep bool) []hostile {
 					}
 					return x
 				}
-				b, _ := json.Marshal(set(c, p))
-				return b
+				return orderedMarshal(set(c, p), base)
 			}
 			for i := 0; i < len(leaves); i++ {
 				for k := i + 1; k < len(leaves); k++ {
